@@ -296,6 +296,14 @@ def check_frame(interp, fi, contract, selfobj, oldenv, exceptional):
 def apply_contract(interp, fi, c, args, kwargs, fr, node):
     interp.contract_used.add(fi.key)
     env = interp.bind_params(fi, args, kwargs)
+    # several contracts for one function: pick the variant whose guard holds for these arguments
+    for guard, vkey in c.get('dispatch', []):
+        gfr = Frame(fi, dict(env), spec=True)
+        gv = interp.eval_spec(guard, gfr)
+        if not is_symbolic(gv) and gv:
+            c = interp.contracts[vkey]
+            interp.contract_used.add(vkey)
+            break
     selfobj = env.get('self') if fi.cls is not None else None
     line = getattr(node, 'lineno', interp.cur_line)
     caller = fr.fi.key if fr.fi is not None else interp.top_key
@@ -353,7 +361,20 @@ def apply_contract(interp, fi, c, args, kwargs, fr, node):
         result = None
         have_result = False
         pending = []
-        for e in c.get('ensures', []):
+        ens = c.get('ensures', [])
+        if is_ctor and c.get('ctor_fields') and isinstance(selfobj, Obj):
+            # constructor: the new object's fields are given constructively (the ensures clauses are
+            # what the constructor's own verification proves about exactly these values)
+            for f, ty in c.get('ctor_fresh', {}).items():
+                selfobj.fields[f] = interp.fresh_typed('%s.%s' % (selfobj.name or 'obj', f), ty)
+            for f, ex in c['ctor_fields'].items():
+                selfobj.fields[f] = eval_rhs(interp, interp.parse_spec(ex), cfr)
+            for f, clsname in c.get('ctor_objects', {'ComplexityObject': 'SequenceComplexity'}).items():
+                pc_ = fi.module.ns.get(clsname)
+                if pc_ is not None:
+                    selfobj.fields[f] = Obj(pc_, f)
+            ens = c.get('ensures', []) if c.get('ctor_assume_ensures') else []
+        for e in ens:
             nd = interp.parse_spec(e)
             if isinstance(nd, ast.Compare) and len(nd.ops) == 1 and isinstance(nd.ops[0], ast.Eq):
                 l = nd.left
